@@ -1103,6 +1103,10 @@ func (broker *Broker) startTrack(wg *sync.WaitGroup) {
 				// If the Q is still not empty, don't block when looking for a
 				// new payload to receive
 				wait = time.After(time.Second)
+			} else if in == nil {
+				// The Q was just emptied and the input channel is closed, so
+				// we're done (nothing below could ever wake us up again)
+				return
 			}
 		}
 		payload = nil
